@@ -31,14 +31,10 @@ def expected : List Expected := [
     "UNREACHABLE-PARSER: the switch covers Lit, SglQuoted, DblQuoted, ParamExp, CmdSubst, ArithmExp, ProcSubst, ExtGlob; the ninth WordPart, BraceExp, is only created by syntax.SplitBraces inside expand.Fields on a copy of the word and consumed by expandBraces before wordField runs"⟩,
   ⟨⟨"expand", "expand.go", "*Config.wordFields", "panic", "\"unhandled word part: %T\"", 1⟩,
     "UNREACHABLE-PARSER: same coverage as wordField; BraceExp parts are expanded away by Fields before wordFields runs"⟩,
-  ⟨⟨"expand", "param.go", "*Config.assignElem", "assert", "idx.(*syntax.Word)", 1⟩,
-    "REACHABLE: C28-assoc-index-not-word — `declare -A a; : ${a[1+1]=5}` (model: assocIndex, theorem assoc_index_counterexample)"⟩,
   ⟨⟨"expand", "param.go", "*Config.paramExp", "panic", "\"unexpected @%s param expansion\"", 1⟩,
     "UNREACHABLE-PARSER: the parser only accepts the @ operators Q E P A a U u L K k ('invalid @ expansion operator' otherwise), all of which have a case"⟩,
   ⟨⟨"expand", "param.go", "*Config.paramExp", "panic", "err", 1⟩,
     "REACHABLE: C28-nul-byte-quote — syntax.Quote fails on a value containing a NUL byte (`read x < file-with-NUL; echo ${x@Q}`)"⟩,
-  ⟨⟨"expand", "param.go", "*Config.varInd", "assert", "idx.(*syntax.Word)", 1⟩,
-    "REACHABLE: C28-assoc-index-not-word — `declare -A a; echo ${a[1+2]}`"⟩,
   ⟨⟨"interp", "api.go", "*Runner.Reset", "panic", "\"interp.ExecHandler should be replaced with interp.ExecHandlers, not mixed\"", 1⟩,
     "API-MISUSE: deliberate guard against passing both the deprecated ExecHandler and ExecHandlers to New; the option generator never mixes them (documented assumption of C28)"⟩,
   ⟨⟨"interp", "api.go", "*Runner.Reset", "panic", "\"use interp.New to construct a Runner\"", 1⟩,
@@ -57,10 +53,6 @@ def expected : List Expected := [
     "REACHABLE: C28-nul-byte-quote — `set -x` tracing of an assignment whose value contains a NUL byte"⟩,
   ⟨⟨"interp", "runner.go", "*Runner.fillExpandConfig", "panic", "\"unexpected process substitution operator: %q\"", 1⟩,
     "UNREACHABLE-PARSER: ProcSubst.Op is CmdIn, CmdOut or CmdInTemp; CmdInTemp returns 'unsupported' before the goroutine starts"⟩,
-  ⟨⟨"interp", "test.go", "*Runner.bashTest", "assert", "x.X.(*syntax.Word)", 1⟩,
-    "REACHABLE: C28-test-nonword-operand — `[ -n a = b ]`: the classic test parser builds BinaryTest{=, X: UnaryTest}; for `[[ ]]` the syntax parser guarantees a Word"⟩,
-  ⟨⟨"interp", "test.go", "*Runner.bashTest", "assert", "x.Y.(*syntax.Word)", 1⟩,
-    "UNREACHABLE-INTERNAL: classicTest fills Y with followWord (always a *Word) for every operator other than -a/-o; the syntax parser does the same for `[[ ]]`"⟩,
   ⟨⟨"interp", "test.go", "*Runner.binTest", "panic", "\"unexpected binary test operator: %q\"", 1⟩,
     "UNREACHABLE-PARSER: every BinTestOperator the two test parsers produce has a case (explored by the search leg's test/[[ generators)"⟩,
   ⟨⟨"interp", "test.go", "*Runner.unTest", "panic", "\"unexpected unary test op: %v\"", 1⟩,
@@ -69,8 +61,6 @@ def expected : List Expected := [
     "REACHABLE: C28-nul-byte-quote — `set -x` tracing of a command with an argument containing a NUL byte"⟩,
   ⟨⟨"interp", "trace.go", "*tracer.expr", "panic", "err", 1⟩,
     "UNREACHABLE-INTERNAL: printer.Print on a node of a parsed program into a bytes.Buffer; its errors are write errors or unsupported nodes, neither possible here"⟩,
-  ⟨⟨"interp", "vars.go", "*Runner.assignVal", "assert", "elem.Index.(*syntax.Word)", 1⟩,
-    "REACHABLE: C28-assoc-index-not-word — `declare -A a=([1+2]=x)`"⟩,
   ⟨⟨"interp", "vars.go", "*Runner.assignVal", "panic", "\"unexpected conversion of kind %d\"", 1⟩,
     "UNREACHABLE-INTERNAL: the enclosing switch handles every ValueKind a variable can have when appended to (Unknown, String, Indexed, Associative; NameRef is resolved before)"⟩,
   ⟨⟨"interp", "vars.go", "*overlayEnviron.Set", "assert", "o.parent.(expand.WriteEnviron)", 1⟩,
